@@ -13,6 +13,7 @@ import PygProofs.Lemmas.BitempFrames
 import PygProofs.Lemmas.BitempCols
 import PygProofs.Lemmas.BitempFirstS
 import PygProofs.Lemmas.BitempEmb
+import PygProofs.Lemmas.BitempH5
 
 namespace Pyg.Props.C17
 open Pyg Pyg.Bitemp
@@ -1066,5 +1067,279 @@ theorem frame_one_column (log : List Version) :
       simp only [List.map_cons, List.foldl_cons, hBi, biMergeF_emb]
       exact ih (some (biMerge acc (Bi v.ts v.stamp)))
   exact key log Option.none
+
+/-! ## round h5 (review s5): idempotence for the REST of the history, the sharp literal-first condition, reads without an as-of time -/
+
+/-- **idempotence, as a statement about the future**: after merging a version that is already in the store (every row of it is a row of
+    the store - it may be stamped EARLIER than the last version, so that `log ++ [w]` is not a stamp-ordered log and no other theorem of
+    this file would apply to what follows) the history goes on exactly as if the re-merge had not happened: whatever stamp-ordered
+    versions `later` are merged afterwards, every as-of read and every first read of the resulting store equals the read of the history
+    without the re-merge, i.e. the fold of the publication log `log ++ later`. -/
+theorem merge_idem_future (log : List Version) (h : Ordered log) (st : Store) (hst : history log = some st) (w : Version)
+    (hin : ∀ p ∈ w.ts, (⟨p.1, w.stamp, p.2⟩ : Row) ∈ st)
+    (later : List Version) (hl : Ordered (log ++ later)) (T : Option Int) :
+    ∃ st₁ st₂, later.foldl (fun s v => some (biMerge s (Bi v.ts v.stamp))) (some (biMerge (some st) (Bi w.ts w.stamp))) = some st₁ ∧
+      history (log ++ later) = some st₂ ∧
+      biRead st₁ T (-1) = biRead st₂ T (-1) ∧ biRead st₁ T 0 = biRead st₂ T 0 ∧
+      biRead st₁ T (-1) = specRead (log ++ later) T ∧ biRead st₁ T 0 = specFirst (log ++ later) T := by
+  obtain ⟨st', hst', hinv⟩ := history_inv log h.ne h.wf h.stamps
+  rw [hst] at hst'; cases hst'
+  have hs := logRows_sorted _ hl.stamps
+  obtain ⟨st₁, e1, i1⟩ := inv_foldl later _ log (inv_remerge hinv w hin) hs
+  obtain ⟨st₂, e2, i2⟩ := inv_foldl later st log hinv hs
+  have hsl : ∀ d, SortedLe (group d (logRows (log ++ later))) := fun d => hs.sublist List.filter_sublist
+  have r1 : biRead st₁ T (-1) = specRead (log ++ later) T := by
+    rw [biRead_last st₁ i1.1, specRead_eq, specRows_congr i1.2.1]
+  have r2 : biRead st₂ T (-1) = specRead (log ++ later) T := by
+    rw [biRead_last st₂ i2.1, specRead_eq, specRows_congr i2.2.1]
+  have f1 : biRead st₁ T 0 = specFirst (log ++ later) T := by
+    rw [biRead_first st₁ i1.1, specFirst_eq]
+    exact firstRows_congr i1.2.1 (fun d => (i1.1 d).1.le) hsl T
+  have f2 : biRead st₂ T 0 = specFirst (log ++ later) T := by
+    rw [biRead_first st₂ i2.1, specFirst_eq]
+    exact firstRows_congr i2.2.1 (fun d => (i2.1 d).1.le) hsl T
+  refine ⟨st₁, st₂, e1, ?_, r1.trans r2.symm, f1.trans f2.symm, r1, f1⟩
+  rw [history_append, hst]; exact e2
+
+-- the hypotheses are satisfiable with a version stamped EARLIER than the last one and a non-trivial continuation (reviewer's probe):
+-- `3@10 (dates 1,2), 5@11, 3@12`, re-merge the first version (stamp 10), then continue with stamps 13, 13, 14
+example : Ordered ([⟨10, [(1, some 3), (2, some 1)]⟩, ⟨11, [(1, some 5)]⟩, ⟨12, [(1, some 3)]⟩] ++
+    [⟨13, [(1, some 3), (2, Option.none)]⟩, ⟨13, [(1, some 5)]⟩, ⟨14, [(2, some 1)]⟩]) :=
+  ⟨by simp, by decide, by decide⟩
+#guard (history [⟨10, [(1, some 3), (2, some 1)]⟩, ⟨11, [(1, some 5)]⟩, ⟨12, [(1, some 3)]⟩]).map
+    (fun st => ([(1, some 3), (2, some 1)] : TS).all fun p => st.contains ⟨p.1, 10, p.2⟩) = some true
+
+/-- **first read, literal - the sharp sufficient condition**: only the date's FIRST stamp matters.  If, for every date, each later
+    publication (visible as of `T`) that shares the stamp of the date's first publication is NaN or repeats the first value, then
+    `bi_read(what=0)` returns the first value published per date - the clause as it is written.  (`5@10, 6@11, 7@11` and
+    `5@10, NaN@10, 5@10` satisfy this; `read_first_literal`'s hypothesis - all stamps of the date distinct - excludes both.)
+    The exact condition is `read_first_literal_iff`; it is not "no second publication shares the first stamp" (that is sufficient,
+    `read_first_literal_first_stamp`, not necessary). -/
+theorem read_first_literal_sharp (log : List Version) (h : Ordered log) (T : Option Int)
+    (hd : ∀ d r rest, group d (pubs log T) = r :: rest →
+      ∀ r' ∈ rest, r'.stamp = r.stamp → r'.val = Option.none ∨ r'.val = r.val) :
+    ∃ st, history log = some st ∧ biRead st T 0 = specFirstLiteral log T := by
+  obtain ⟨st, hst, hiff⟩ := read_first_literal_iff log h T
+  refine ⟨st, hst, hiff.2 ?_⟩
+  intro d _
+  match hg : group d (pubs log T) with
+  | [] => rfl
+  | r :: rest =>
+    have hB : ∀ b ∈ rest.filter (·.stamp == r.stamp), b.val = Option.none ∨ b.val = r.val := by
+      intro b hb
+      obtain ⟨hb1, hb2⟩ := List.mem_filter.mp hb
+      exact hd d r rest hg b hb1 (by simpa using hb2)
+    have hf : (r :: rest).filter (·.stamp == r.stamp) = r :: rest.filter (·.stamp == r.stamp) := by
+      simp
+    simp only [firstVal, hf, lastVal_cons, List.head?_cons, Option.bind_some]
+    rcases lastVal_noop r.val _ hB with e | e <;> rw [e]
+    · rfl
+    · cases r.val <;> rfl
+
+/-- the simplest useful form: no later publication of the date shares the stamp of its first publication -/
+theorem read_first_literal_first_stamp (log : List Version) (h : Ordered log) (T : Option Int)
+    (hd : ∀ d r rest, group d (pubs log T) = r :: rest → ∀ r' ∈ rest, r'.stamp ≠ r.stamp) :
+    ∃ st, history log = some st ∧ biRead st T 0 = specFirstLiteral log T :=
+  read_first_literal_sharp log h T (fun d r rest hg r' hr' he => absurd he (hd d r rest hg r' hr'))
+
+/-- the two histories of the review: the hypothesis of `read_first_literal_sharp` holds, that of `read_first_literal` does not -/
+def lateTie : List Version := [⟨10, [(1, some 5)]⟩, ⟨11, [(1, some 6)]⟩, ⟨11, [(1, some 7)]⟩]
+def firstTieNan : List Version := [⟨10, [(1, some 5)]⟩, ⟨10, [(1, Option.none)]⟩, ⟨10, [(1, some 5)]⟩]
+#guard (history lateTie).map (fun st => (biRead st Option.none 0, specFirstLiteral lateTie Option.none)) = some ([(1, some 5)], [(1, some 5)])
+#guard ((group 1 (pubs lateTie Option.none)).map (·.stamp)) = [10, 11, 11]
+#guard (history firstTieNan).map (fun st => (biRead st Option.none 0, specFirstLiteral firstTieNan Option.none)) = some ([(1, some 5)], [(1, some 5)])
+#guard ((group 1 (pubs firstTieNan Option.none)).map (fun r => (r.stamp, r.val))) = [(10, some 5), (10, Option.none), (10, some 5)]
+
+/-- **"no asof" is "as of any time after all stamps"**: `bi_read(store)` without an as-of time returns what `bi_read(store, asof=M)`
+    returns for every `M` that no stamp exceeds - for the default read and the first read. -/
+theorem read_noasof (log : List Version) (h : Ordered log) (st : Store) (hst : history log = some st) (M : Int)
+    (hM : ∀ v ∈ log, v.stamp ≤ M) :
+    biRead st Option.none (-1) = biRead st (some M) (-1) ∧ biRead st Option.none 0 = biRead st (some M) 0 := by
+  obtain ⟨s1, e1, r1⟩ := read_spec log h Option.none
+  obtain ⟨s2, e2, r2⟩ := read_spec log h (some M)
+  obtain ⟨s3, e3, r3⟩ := read_first log h Option.none
+  obtain ⟨s4, e4, r4⟩ := read_first log h (some M)
+  rw [hst] at e1 e2 e3 e4; cases e1; cases e2; cases e3; cases e4
+  rw [r1, r2, r3, r4]
+  simp only [specRead, specFirst, pubs_none_eq log M hM, and_self]
+
+/-- **value of the read without as-of time, declaratively** (`read_value` for `bi_read(store)`): `x` is shown for `d` iff some
+    version publishes `x` for `d` and no version merged after it publishes a non-NaN value for `d`. -/
+theorem read_value_noasof (log : List Version) (h : Ordered log) (st : Store) (hst : history log = some st) (d x : Int) :
+    (d, some x) ∈ biRead st Option.none (-1) ↔
+      ∃ before v after, log = before ++ v :: after ∧ (d, some x) ∈ v.ts ∧ ∀ u ∈ after, ∀ y, (d, some y) ∉ u.ts := by
+  obtain ⟨M, hM⟩ := exists_stamp_bound log
+  rw [(read_noasof log h st hst M hM).1, read_value log h M st hst]
+  constructor
+  · rintro ⟨b, v, a, e, _, h2, h3⟩
+    exact ⟨b, v, a, e, h2, fun u hu => h3 u hu (hM u (by rw [e]; simp [hu]))⟩
+  · rintro ⟨b, v, a, e, h2, h3⟩
+    exact ⟨b, v, a, e, hM v (by rw [e]; simp), h2, fun u hu _ => h3 u hu⟩
+
+/-- **NaN row of the read without as-of time**: NaN is shown for `d` iff `d` was published and every publication of `d` is NaN -/
+theorem read_nan_noasof (log : List Version) (h : Ordered log) (st : Store) (hst : history log = some st) (d : Int) :
+    (d, Option.none) ∈ biRead st Option.none (-1) ↔
+      (∃ v ∈ log, d ∈ v.ts.index) ∧ ∀ v ∈ log, ∀ y, (d, some y) ∉ v.ts := by
+  obtain ⟨M, hM⟩ := exists_stamp_bound log
+  rw [(read_noasof log h st hst M hM).1, read_nan log h M st hst]
+  constructor
+  · rintro ⟨⟨v, hv, _, hd⟩, hall⟩
+    exact ⟨⟨v, hv, hd⟩, fun u hu => hall u hu (hM u hu)⟩
+  · rintro ⟨⟨v, hv, hd⟩, hall⟩
+    exact ⟨⟨v, hv, hM v hv, hd⟩, fun u hu _ => hall u hu⟩
+
+/-- the dates of the read without as-of time: exactly the dates some version contains -/
+theorem read_dates_noasof (log : List Version) (h : Ordered log) (st : Store) (hst : history log = some st) (d : Int) :
+    d ∈ (biRead st Option.none (-1)).index ↔ ∃ v ∈ log, d ∈ v.ts.index := by
+  obtain ⟨M, hM⟩ := exists_stamp_bound log
+  rw [(read_noasof log h st hst M hM).1, read_dates log h M st hst]
+  constructor
+  · rintro ⟨v, hv, _, hd⟩; exact ⟨v, hv, hd⟩
+  · rintro ⟨v, hv, hd⟩; exact ⟨v, hv, hM v hv, hd⟩
+
+/-! ### batches as the code runs them (review s5): `read_spec_batches` is about the total `historyL`; `historyLE` folds the raising
+    `biMergeLE` that the driver compares with the code -/
+
+/-- some `bi_merge` call of the batch history raises: a non-empty batch `b` brings the number of versions to two or more while all
+    of them - those of the earlier calls `pre` and those of `b` - are empty series (`pd.concat([])`, `_bitemporal.py:288`) -/
+def BatchRaises (batches : List (List Version)) : Prop :=
+  ∃ pre b post, batches = pre ++ b :: post ∧ b ≠ [] ∧ 2 ≤ (pre.flatten ++ b).length ∧ ∀ v ∈ pre.flatten ++ b, v.ts = []
+
+theorem batchRaises_iff (batches : List (List Version)) : BatchRaises batches ↔ RaisesFrom [] batches := by
+  simp only [BatchRaises, RaisesFrom, CallRaises, List.nil_append]
+
+/-- **when a history of batches returns**: `historyLE` is the `ValueError` exactly when some call raises (`BatchRaises`: the call
+    that makes it two or more versions, all empty); every other history returns the store `historyL` describes. -/
+theorem historyLE_eq (batches : List (List Version)) :
+    (BatchRaises batches → historyLE batches = .error .value) ∧
+    (¬ BatchRaises batches → historyLE batches = .ok (historyL batches)) := by
+  rw [batchRaises_iff, historyLE_eq_foldl, historyL_eq]
+  exact historyLE_foldl batches Option.none [] ⟨by simp, by intro s hs; cases hs⟩
+
+/-- a history of batches whose very first version is not empty never raises -/
+theorem not_batchRaises_of_first (batches : List (List Version)) (v : Version) (hv : batches.flatten.head? = some v)
+    (hne : v.ts ≠ []) : ¬ BatchRaises batches := by
+  rintro ⟨pre, b, post, rfl, hb, _, hall⟩
+  have hp : pre.flatten ++ b ≠ [] := by simp [hb]
+  have e : (pre ++ b :: post).flatten = (pre.flatten ++ b) ++ post.flatten := by simp
+  rw [e, List.head?_append] at hv
+  cases hh : (pre.flatten ++ b).head? with
+  | none => exact hp (List.head?_eq_none_iff.mp hh)
+  | some u =>
+    rw [hh, Option.some_or, Option.some.injEq] at hv
+    subst hv
+    exact hne (hall u (List.mem_of_mem_head? (by rw [hh]; rfl)))
+
+/-- **refinement for the batch histories that return**: for every stamp-ordered history, however it is cut into `bi_merge` calls,
+    if no call raises the code's history returns a store, and that store answers as-of reads and first reads as the publication log
+    does.  (`read_spec_batches` says the same of the total `historyL`, also on histories on which the code raises.) -/
+theorem read_spec_batches_returns (batches : List (List Version)) (h : Ordered batches.flatten) (hne : ¬ BatchRaises batches)
+    (T : Option Int) :
+    ∃ st, historyLE batches = .ok (some st) ∧ biRead st T (-1) = specRead batches.flatten T ∧
+      biRead st T 0 = specFirst batches.flatten T := by
+  obtain ⟨st, hst, hr⟩ := read_spec_batches batches h T
+  exact ⟨st, by rw [(historyLE_eq batches).2 hne, hst], hr⟩
+
+/-- ... and the other `Ordered` batch histories raise: `[[10: empty, 11: empty], [12: ...]]` is `Ordered`, `read_spec_batches` yields a
+    store for it, the code (and `historyLE`) raise -/
+theorem historyLE_raises : ∃ batches, Ordered batches.flatten ∧ historyLE batches = .error .value ∧
+    ∃ st, historyL batches = some st := by
+  refine ⟨[[⟨10, []⟩, ⟨11, []⟩], [⟨12, [(1, some 5)]⟩]], ⟨by simp, by decide, by decide⟩, ?_, ?_⟩
+  · exact (historyLE_eq _).1 ⟨[], [⟨10, []⟩, ⟨11, []⟩], [[⟨12, [(1, some 5)]⟩]], rfl, by simp, by simp, by simp⟩
+  · obtain ⟨st, hst, _⟩ := read_spec_batches [[⟨10, []⟩, ⟨11, []⟩], [⟨12, [(1, some 5)]⟩]] ⟨by simp, by decide, by decide⟩ Option.none
+    exact ⟨st, hst⟩
+
+-- the hypotheses of `read_spec_batches_returns` on a history with an empty version inside a later batch
+example : Ordered ([[⟨10, [(1, some 5)]⟩], [⟨11, []⟩, ⟨11, [(1, Option.none), (2, some 7)]⟩], []] : List (List Version)).flatten ∧
+    ¬ BatchRaises [[⟨10, [(1, some 5)]⟩], [⟨11, []⟩, ⟨11, [(1, Option.none), (2, some 7)]⟩], []] :=
+  ⟨⟨by simp, by decide, by decide⟩, not_batchRaises_of_first _ ⟨10, [(1, some 5)]⟩ rfl (by simp)⟩
+
+/-- **which earlier versions can be re-merged**: a version `w` of a stamp-ordered history shows, as of its stamp, exactly its own
+    non-NaN values - the hypothesis `hvis` of `merge_idem` - provided no version merged after it under the SAME stamp publishes a
+    different non-NaN value for one of its dates.  (The comment of `merge_idem` said this in prose; `last_version_visible` is the case
+    `after = []`.)  Such a version need not be "in the store" row by row: a row that repeats the value before it is compressed away. -/
+theorem earlier_version_visible (before : List Version) (w : Version) (after : List Version)
+    (h : Ordered (before ++ w :: after)) (st : Store) (hst : history (before ++ w :: after) = some st)
+    (hno : ∀ u ∈ after, u.stamp = w.stamp → ∀ p ∈ w.ts, ∀ x, p.2 = some x → ∀ y, (p.1, some y) ∈ u.ts → y = x) :
+    ∀ p ∈ w.ts, ∃ y, (p.1, y) ∈ biRead st (some w.stamp) (-1) ∧ (p.2 = Option.none ∨ p.2 = y) := by
+  intro p hp
+  obtain ⟨st', hst', hr⟩ := read_spec _ h (some w.stamp)
+  rw [hst] at hst'; cases hst'
+  have hwf : w.ts.Sorted := h.wf w (by simp)
+  have hW : col p.1 w.stamp [w] = [⟨p.1, w.stamp, p.2⟩] := by
+    rw [col_cons, if_pos (Int.le_refl _), group_Bi_single w.ts w.stamp hwf p hp]
+    simp [col, logRows, group]
+  have hsplit : col p.1 w.stamp (before ++ w :: after) =
+      col p.1 w.stamp before ++ ([⟨p.1, w.stamp, p.2⟩] ++ col p.1 w.stamp after) := by
+    have e : before ++ w :: after = before ++ ([w] ++ after) := by simp
+    rw [e, col_append, col_append, hW]
+  refine ⟨lastVal (col p.1 w.stamp (before ++ w :: after)), ?_, ?_⟩
+  · rw [hr, specRead_eq]
+    simp only [specRows, List.mem_map, Prod.mk.injEq]
+    refine ⟨p.1, ?_, rfl, by simp only [col, group_filter]⟩
+    rw [mem_dates]
+    refine ⟨⟨p.1, w.stamp, p.2⟩, List.mem_filter.mpr ⟨?_, by simp [vis]⟩, rfl⟩
+    simp only [logRows, List.mem_flatMap, Bi, List.mem_map]
+    exact ⟨w, by simp, p, hp, rfl⟩
+  · cases hx : p.2 with
+    | none => exact Or.inl rfl
+    | some x =>
+      right
+      have hB : ∀ r ∈ col p.1 w.stamp after, r.val = Option.none ∨ r.val = some x := by
+        intro r hr'
+        obtain ⟨u, hu, huT, _, _, hpu⟩ := mem_col.mp hr'
+        have hge : w.stamp ≤ u.stamp := by
+          have hs := h.stamps
+          rw [List.pairwise_append] at hs
+          exact List.rel_of_pairwise_cons hs.2.1 hu
+        cases hv : r.val with
+        | none => exact Or.inl rfl
+        | some y =>
+          right
+          rw [hv] at hpu
+          rw [hno u hu (by omega) p hp x hx y hpu]
+      rw [hsplit, lastVal_append, lastVal_append, hx]
+      rcases lastVal_noop (some x) _ hB with e | e <;> rw [e] <;> simp [lastVal]
+
+/-- **idempotence for the rest of the history, for every such version**: `merge_idem_future` with the hypothesis of `merge_idem`
+    instead of "rows of the store": the re-merged `w` is a version of the log whose values are NaN or the values visible as of its
+    stamp (by `earlier_version_visible`: every version that no same-stamp successor contradicts).  Whatever stamp-ordered versions
+    follow, all as-of reads and first reads are those of the history without the re-merge. -/
+theorem merge_idem_future_visible (log : List Version) (h : Ordered log) (st : Store) (hst : history log = some st) (w : Version)
+    (hw : w ∈ log)
+    (hvis : ∀ p ∈ w.ts, ∃ y, (p.1, y) ∈ biRead st (some w.stamp) (-1) ∧ (p.2 = Option.none ∨ p.2 = y))
+    (later : List Version) (hl : Ordered (log ++ later)) (T : Option Int) :
+    ∃ st₁ st₂, later.foldl (fun s v => some (biMerge s (Bi v.ts v.stamp))) (some (biMerge (some st) (Bi w.ts w.stamp))) = some st₁ ∧
+      history (log ++ later) = some st₂ ∧
+      biRead st₁ T (-1) = biRead st₂ T (-1) ∧ biRead st₁ T 0 = biRead st₂ T 0 ∧
+      biRead st₁ T (-1) = specRead (log ++ later) T ∧ biRead st₁ T 0 = specFirst (log ++ later) T := by
+  obtain ⟨st', hst', hinv⟩ := history_inv log h.ne h.wf h.stamps
+  rw [hst] at hst'; cases hst'
+  have hs := logRows_sorted _ hl.stamps
+  have hsub : ∀ p ∈ w.ts, (⟨p.1, w.stamp, p.2⟩ : Row) ∈ logRows log := by
+    intro p hp
+    simp only [logRows, List.mem_flatMap, Bi, List.mem_map]
+    exact ⟨w, hw, p, hp, rfl⟩
+  obtain ⟨st₁, e1, i1⟩ := inv_foldl later _ log (inv_remerge_visible hinv w hsub hvis) hs
+  obtain ⟨st₂, e2, i2⟩ := inv_foldl later st log hinv hs
+  have hsl : ∀ d, SortedLe (group d (logRows (log ++ later))) := fun d => hs.sublist List.filter_sublist
+  have r1 : biRead st₁ T (-1) = specRead (log ++ later) T := by
+    rw [biRead_last st₁ i1.1, specRead_eq, specRows_congr i1.2.1]
+  have r2 : biRead st₂ T (-1) = specRead (log ++ later) T := by
+    rw [biRead_last st₂ i2.1, specRead_eq, specRows_congr i2.2.1]
+  have f1 : biRead st₁ T 0 = specFirst (log ++ later) T := by
+    rw [biRead_first st₁ i1.1, specFirst_eq]
+    exact firstRows_congr i1.2.1 (fun d => (i1.1 d).1.le) hsl T
+  have f2 : biRead st₂ T 0 = specFirst (log ++ later) T := by
+    rw [biRead_first st₂ i2.1, specFirst_eq]
+    exact firstRows_congr i2.2.1 (fun d => (i2.1 d).1.le) hsl T
+  refine ⟨st₁, st₂, e1, ?_, r1.trans r2.symm, f1.trans f2.symm, r1, f1⟩
+  rw [history_append, hst]; exact e2
+
+-- `earlier_version_visible` on a version in the middle whose row is NOT a row of the store (`5@11` repeats `5@10` and is compressed away)
+example : Ordered ([⟨10, [(1, some 5)]⟩] ++ ⟨11, [(1, some 5)]⟩ :: [⟨11, [(1, Option.none)]⟩, ⟨12, [(1, some 7)]⟩]) :=
+  ⟨by simp, by decide, by decide⟩
+#guard (history [⟨10, [(1, some 5)]⟩, ⟨11, [(1, some 5)]⟩, ⟨11, [(1, Option.none)]⟩, ⟨12, [(1, some 7)]⟩]) =
+  some [⟨1, 10, some 5⟩, ⟨1, 12, some 7⟩]
 
 end Pyg.Props.C17
